@@ -271,6 +271,94 @@ pub fn maddr(rng: &mut Rng, p2p: Option<&[u8]>) -> Vec<u8> {
     }
     b
 }
+
+/// a multiaddress drawn from the whole protocol table of multiaddr 0.18 (valid unless noted)
+fn maddr_any(rng: &mut Rng) -> Vec<u8> {
+    let mut b = Vec::new();
+    let lp = |rng: &mut Rng, b: &mut Vec<u8>, code: u64, data: &[u8]| {
+        b.extend(uvi(code));
+        let n = if rng.chance(6) { pick_extreme(rng) } else if rng.chance(5) { data.len() as u64 + 1 } else { data.len() as u64 };
+        b.extend(uvi(n));
+        b.extend(data);
+    };
+    for _ in 0..rng.range(1, 4) {
+        match rng.below(22) {
+            0 => {
+                b.push(4);
+                b.extend(rand_bytes(rng, 4));
+            }
+            1 => {
+                b.push(41);
+                b.extend(rand_bytes(rng, 16));
+            }
+            2 => {
+                let c = rng.pick(&[6u64, 273, 132, 33]);
+                b.extend(uvi(c));
+                b.extend(rand_bytes(rng, 2));
+            }
+            3 => {
+                let c = rng.pick(&[53u64, 54, 55, 56, 400, 4770, 4780, 42, 449]);
+                let d = string_val(rng);
+                lp(rng, &mut b, c, &d);
+            }
+            4 => {
+                let c = rng.pick(&[480u64, 443, 276, 275, 280, 479, 290, 460, 461, 448, 454, 301, 302, 465, 477, 478, 277, 281]);
+                b.extend(uvi(c));
+            }
+            5 => {
+                // certhash: an exact multihash (any code, digest <= 64)
+                let n = rng.pick(&[0u64, 20, 32, 64, 65]);
+                let mut mh = uvi(rng.pick(&[0x12u64, 0x16, 0x1e, 0xb220]));
+                mh.extend(uvi(n));
+                mh.extend(rand_bytes(rng, n as usize));
+                if rng.chance(10) {
+                    mh.push(0);
+                }
+                lp(rng, &mut b, 466, &mh);
+            }
+            6 => {
+                b.extend(uvi(777));
+                b.extend(rand_bytes(rng, 8));
+            }
+            7 => {
+                b.extend(uvi(444));
+                b.extend(rand_bytes(rng, 12));
+            }
+            8 => {
+                b.extend(uvi(445));
+                b.extend(rand_bytes(rng, 37));
+            }
+            9 | 10 => {
+                let id = if rng.chance(80) { peer_id(rng) } else { bad_peer_id(rng) };
+                lp(rng, &mut b, 421, &id);
+            }
+            11 => {
+                let c = rng.pick(&[446u64, 447]);
+                let d = small_bytes(rng, 40);
+                lp(rng, &mut b, c, &d);
+            }
+            12 => {
+                b.push(43);
+                b.push(rng.below(256) as u8);
+            }
+            13 => {
+                // unknown or over-long protocol id
+                match rng.below(3) {
+                    0 => b.extend(uvi(rng.pick(&[0u64, 1, 5, 7, 999, 1 << 20, (1 << 32) - 1]))),
+                    1 => b.extend(uvi_padded(4, rng.pick(&[2usize, 5, 6]))),
+                    _ => b.extend(uvi(pick_extreme(rng))),
+                }
+                b.extend(small_bytes(rng, 6));
+            }
+            _ => b.extend(maddr(rng, None)),
+        }
+    }
+    if rng.chance(12) {
+        let n = rng.below(b.len() as u64 + 1) as usize;
+        b.truncate(n);
+    }
+    b
+}
 fn bad_maddr(rng: &mut Rng) -> Vec<u8> {
     match rng.below(6) {
         0 => vec![],
@@ -296,8 +384,9 @@ fn bad_maddr(rng: &mut Rng) -> Vec<u8> {
     }
 }
 fn addr_for(rng: &mut Rng, id: &[u8]) -> Vec<u8> {
-    match rng.below(10) {
+    match rng.below(12) {
         0 => bad_maddr(rng),
+        10 | 11 => maddr_any(rng),
         1 | 2 => maddr(rng, Some(id)),
         3 => {
             let other = peer_id(rng);
@@ -806,6 +895,10 @@ fn c_frames(max: Option<u64>, s: &[u8]) -> Vec<u64> {
     el(&mut c, s);
     c
 }
+/// the peer id of the node the worker runs the identify loop as (fixed key, see tasks.rs)
+fn local_fixed() -> Vec<u8> {
+    super::tasks::local_peer().to_bytes()
+}
 fn c_ident(peer: &[u8], local: &[u8], b: &[u8]) -> Vec<u64> {
     let mut c = vec![7];
     el(&mut c, peer);
@@ -1013,6 +1106,394 @@ fn web_systematic(out: &mut Vec<Vec<u64>>) {
     }
     for i in 0..=na.len() {
         out.push(c_web_dial(b"/ipfs/kad/1.0.0", &[na[..i].to_vec()]));
+    }
+}
+
+// ---------------------------------------------------------------- Noise transport frames (C02's case format)
+
+const NOISE_MSG: u64 = 65536; // MAX_NOISE_MSG_LEN: the read-ahead window is factor * this
+const NOISE_MFL: u64 = 65519; // MAX_FRAME_LEN (plaintext per frame)
+const NOISE_BIG: u64 = 1_000_000;
+
+/// `14 F WB <writer ops> <writer script> tamper(4) <reads> <reader script>`: every write is
+/// flushed, so the wire is one frame (2-byte header, payload + 16-byte tag) per write.
+fn c_noise(f: u64, lens: &[u64], tamper: [u64; 4], read_buf: u64, rsc: &[u64]) -> Vec<u64> {
+    let mut c = vec![14, f, 2, 2 * lens.len() as u64];
+    for l in lens {
+        c.extend([0, *l, 1]);
+    }
+    c.push(0);
+    c.extend(tamper);
+    c.extend([1, read_buf, 60]);
+    c.push(rsc.len() as u64);
+    c.extend(rsc);
+    c
+}
+/// frame payload lengths such that the header of frame `k` (the returned index) starts exactly
+/// `d` bytes before the end of the read-ahead window of `f` messages; it is followed by a tail frame
+fn noise_layout(f: u64, d: u64, small: u64, tail: u64) -> (Vec<u64>, u64) {
+    let w = f * NOISE_MSG;
+    let mut lens = Vec::new();
+    let mut left = w - d; // wire bytes before the header in question
+    while left > 2 * (NOISE_MFL + 18) {
+        lens.push(NOISE_MFL);
+        left -= NOISE_MFL + 18;
+    }
+    // two frames for the rest, each at least 1 byte of payload
+    let a = (left / 2).min(NOISE_MFL + 18).max(19);
+    lens.push(a - 18);
+    lens.push(left - a - 18);
+    let k = lens.len() as u64;
+    lens.push(small);
+    lens.push(tail);
+    (lens, k)
+}
+fn noise_tampers(k: u64, small: u64) -> Vec<[u64; 4]> {
+    vec![
+        [0, 0, 0, 0],
+        [1, k, 0, 0xff],                // high header byte: announces >= 65280 bytes
+        [1, k, 0, 0x80],
+        [1, k, 1, (small + 16) & 0xff], // low header byte to 0: a zero-length frame when small < 240
+        [1, k, 1, 0xff ^ ((small + 16) & 0xff)],
+        [1, k, 2, 1],                   // garbage ciphertext
+        [1, k - 1, 0, 0xff],            // the frame before it
+        [2, k, 0, 0],
+        [3, k, 0, 0],
+        [4, k - 1, 0, 0],
+    ]
+}
+fn noise_systematic(out: &mut Vec<Vec<u64>>, thorough: bool) {
+    let rsc = vec![NOISE_BIG; 40];
+    for f in [1u64, 2] {
+        for d in (0..=18u64).chain([19, 64, 300]) {
+            for small in [239u64, 1] {
+                if small == 1 && !(thorough || d % 3 == 0) {
+                    continue;
+                }
+                let (lens, k) = noise_layout(f, d, small, 500);
+                for t in noise_tampers(k, small) {
+                    out.push(c_noise(f, &lens, t, 70_000, &rsc));
+                }
+                // the wire cut inside / right after the header
+                for cut in [0u64, 1, 2, 3] {
+                    let at = f * NOISE_MSG - d + cut;
+                    out.push(c_noise(f, &lens, [5, at, 0, 0], 70_000, &rsc));
+                }
+            }
+        }
+    }
+}
+fn noise_random(rng: &mut Rng) -> Vec<u64> {
+    let f = rng.pick(&[1u64, 1, 2, 3]);
+    let d = if rng.chance(70) { rng.below(20) } else { rng.below(70_000).min(f * NOISE_MSG - 100) };
+    let small = rng.pick(&[1u64, 16, 17, 100, 239, 240, 1000, NOISE_MFL]);
+    let tail = rng.pick(&[1u64, 500, 30_000, NOISE_MFL]);
+    let (lens, k) = noise_layout(f, d, small, tail);
+    let ts = noise_tampers(k, small);
+    let mut t = ts[rng.below(ts.len() as u64) as usize];
+    if rng.chance(25) {
+        t = [1, rng.below(k + 2), rng.below(3), rng.range(1, 255)];
+    }
+    let rsc: Vec<u64> = if rng.chance(60) {
+        vec![NOISE_BIG; 40]
+    } else {
+        (0..60).map(|_| rng.pick(&[1u64, 2, 17, 4096, NOISE_MSG - 1, NOISE_MSG, NOISE_MSG + 1, f * NOISE_MSG, NOISE_BIG])).collect()
+    };
+    c_noise(f, &lens, t, rng.pick(&[70_000u64, 65_519, 65_503, 16_384]), &rsc)
+}
+
+// ---------------------------------------------------------------- substream codecs (C04's case format)
+
+fn rle_pairs(b: &[u8]) -> Vec<u64> {
+    // count-prefixed list of (byte, run length)
+    let mut runs: Vec<(u8, u64)> = Vec::new();
+    for x in b {
+        match runs.last_mut() {
+            Some((y, k)) if y == x => *k += 1,
+            _ => runs.push((*x, 1)),
+        }
+    }
+    let mut v = vec![runs.len() as u64];
+    for (y, k) in runs {
+        v.extend([y as u64, k]);
+    }
+    v
+}
+/// `15 codec_tag codec_arg 0 (no writer ops) 0 (no write script) <raw wire> <read script> polls`
+fn c_codec(tag: u64, arg: u64, wire: &[u8], rscript: &[u64], polls: u64) -> Vec<u64> {
+    let mut c = vec![15, tag, arg, 0, 0];
+    c.extend(rle_pairs(wire));
+    c.extend(rscript);
+    c.push(polls);
+    c
+}
+/// read script: `n` events, delivering everything (chunks of `chunk`), then end of stream
+fn read_script(rng: &mut Rng, chunk: u64, n: u64) -> Vec<u64> {
+    let mut ev: Vec<u64> = Vec::new();
+    let mut count = 0u64;
+    for _ in 0..n {
+        if rng.chance(8) {
+            ev.push(0);
+        } else {
+            ev.extend([1, chunk]);
+        }
+        count += 1;
+    }
+    ev.push(if rng.chance(85) { 2 } else { 3 });
+    count += 1;
+    let mut v = vec![count];
+    v.extend(ev);
+    v
+}
+fn codec_random(rng: &mut Rng) -> Vec<u64> {
+    match rng.below(3) {
+        0 => {
+            // Identity(n): any bytes, cut anywhere; n around the initial buffer size
+            let n = rng.pick(&[0u64, 1, 5, 1023, 1024, 1025, 2048, 4000]);
+            let len = rng.pick(&[0u64, 1, n, n + 1, 2 * n, 2 * n + 3, n.saturating_sub(1)]).min(9000);
+            let wire = rand_bytes(rng, len as usize);
+            let chunk = rng.pick(&[1u64, 7, 1024, 100_000]);
+            let rs = read_script(rng, chunk, len / chunk + 3);
+            c_codec(0, n, &wire, &rs, rng.range(2, 14))
+        }
+        1 => {
+            // UnsignedVarint(Some(max)): adversarial length prefixes, polled again after the error
+            let max = rng.pick(&[0u64, 1, 64, 1024, 70 * 1024]);
+            let wire = frame_stream(rng, max);
+            let wire = &wire[..wire.len().min(6000)];
+            let chunk = rng.pick(&[1u64, 3, 1024, 100_000]);
+            let rs = read_script(rng, chunk, (wire.len() as u64) / chunk + 3);
+            c_codec(2, max, wire, &rs, rng.range(2, 16))
+        }
+        _ => {
+            // UnsignedVarint(None): only short declared lengths are run for real
+            let mut wire = Vec::new();
+            for _ in 0..rng.below(4) {
+                let n = rng.pick(&[0u64, 1, 127, 128, 300]);
+                wire.extend(uvi(n));
+                let k = if rng.chance(80) { n } else { n / 2 };
+                wire.extend(rand_bytes(rng, k as usize));
+            }
+            if rng.chance(30) {
+                wire.extend(uvi_padded(5, rng.pick(&[2usize, 10, 11])));
+            }
+            let rs = read_script(rng, 100_000, 4);
+            c_codec(1, 0, &wire, &rs, rng.range(2, 10))
+        }
+    }
+}
+fn codec_systematic(out: &mut Vec<Vec<u64>>) {
+    let mut rng = Rng::new(0xC04);
+    // every extreme length under two limits, delivered whole, polled 6 times (re-polling after the error)
+    for max in [64u64, 70 * 1024] {
+        for v in all_extremes().into_iter().chain([max - 1, max, max + 1]) {
+            for w in [0usize, 10, 11] {
+                let mut wire = if w == 0 { uvi(v) } else { uvi_padded(v, w) };
+                wire.extend([7u8; 40]);
+                let rs = read_script(&mut rng, 100_000, 3);
+                out.push(c_codec(2, max, &wire, &rs, 6));
+            }
+        }
+    }
+    // Identity(n) for sizes around the initial buffer, every cut of 2n+1 bytes for small n
+    for n in [0u64, 1, 3, 1023, 1024, 1025, 5000] {
+        let full = rand_bytes(&mut rng, (2 * n + 1).min(10_001) as usize);
+        let cuts: Vec<usize> = if n <= 3 { (0..=full.len()).collect() } else { vec![0, 1, n as usize - 1, n as usize, n as usize + 1, full.len()] };
+        for cut in cuts {
+            for chunk in [1u64, 100_000] {
+                if chunk == 1 && n > 1025 {
+                    continue;
+                }
+                let k = (cut as u64) / chunk + 2;
+                let mut rs = vec![k + 1];
+                for _ in 0..k {
+                    rs.extend([1, chunk]);
+                }
+                rs.push(2);
+                out.push(c_codec(0, n, &full[..cut], &rs, 5));
+            }
+        }
+    }
+}
+
+// ---------------------------------------------------------------- stream-based multistream futures (C03's mode 3)
+
+/// `16 3 side lazy <pool> <names> <read script> <input> <payload>`: one real listener (side 0) or
+/// dialer (side 1) future against the scripted bytes, closed at the end
+fn c_select(side: u64, lazy: u64, input: &[u8], rscript: &[u64]) -> Vec<u64> {
+    let mut c = vec![16, 3, side, lazy, WEB_NAMES.len() as u64];
+    for n in WEB_NAMES {
+        c.push(n.len() as u64);
+        for b in n.iter() {
+            c.extend([1, *b as u64]);
+        }
+    }
+    c.extend([2, 1, 0]); // names: pool entries 1 and 0
+    c.push(rscript.len() as u64);
+    c.extend(rscript);
+    el(&mut c, input);
+    el(&mut c, b"hi");
+    c
+}
+fn select_random(rng: &mut Rng) -> Vec<u64> {
+    let side = rng.below(2);
+    let mut input = Vec::new();
+    if rng.chance(75) {
+        input.extend(wmsg(MS_HEADER));
+    }
+    for _ in 0..rng.below(4) {
+        let body = web_body(rng);
+        if rng.chance(15) {
+            let w = rng.pick(&[0usize, 0, 2, 3, 10]);
+            input.extend(wmsg_lie(&body, pick_extreme(rng), w));
+        } else if rng.chance(10) {
+            input.extend(wmsg_lie(&body, rng.pick(&[16383u64, 16384, 128, 0]), 0));
+        } else {
+            input.extend(wmsg(&body));
+        }
+    }
+    if rng.chance(20) {
+        input = mutate_bytes(rng, input);
+    }
+    let rs: Vec<u64> = (0..rng.below(12)).map(|_| rng.pick(&[0u64, 1, 1, 2, 5, 100])).collect();
+    c_select(side, if side == 1 { rng.below(2) } else { 0 }, &input, &rs)
+}
+fn select_systematic(out: &mut Vec<Vec<u64>>) {
+    let proto = b"/ipfs/kad/1.0.0\n";
+    let mut full = wmsg(MS_HEADER);
+    full.extend(wmsg(proto));
+    for side in [0u64, 1] {
+        for i in 0..=full.len() {
+            out.push(c_select(side, 0, &full[..i], &[]));
+        }
+        let mut ext = all_extremes();
+        ext.extend([16383, 16384, 16385]);
+        for v in ext {
+            for w in [0usize, 2, 3, 10] {
+                let mut second = wmsg(MS_HEADER);
+                second.extend(wmsg_lie(proto, v, w));
+                out.push(c_select(side, 0, &wmsg_lie(proto, v, w), &[]));
+                out.push(c_select(side, 0, &second, &[]));
+            }
+        }
+    }
+}
+
+// ---------------------------------------------------------------- yamux frames, WebRTC codec, TLS certificates
+
+fn yamux_frame(version: u8, ty: u8, flags: u16, stream: u32, len: u32, body: &[u8]) -> Vec<u8> {
+    let mut v = vec![version, ty];
+    v.extend(flags.to_be_bytes());
+    v.extend(stream.to_be_bytes());
+    v.extend(len.to_be_bytes());
+    v.extend(body);
+    v
+}
+fn yamux_stream(rng: &mut Rng) -> Vec<u8> {
+    let mut s = Vec::new();
+    for _ in 0..rng.range(1, 6) {
+        let ty = if rng.chance(8) { rng.below(256) as u8 } else { rng.below(4) as u8 };
+        let version = if rng.chance(5) { rng.below(256) as u8 } else { 0 };
+        let flags = if rng.chance(10) { rng.below(65536) as u16 } else { rng.pick(&[0u16, 1, 2, 4, 8, 3]) };
+        let stream = rng.pick(&[0u32, 1, 2, 3, 5, u32::MAX]);
+        let n = rng.below(40);
+        let len = match rng.below(10) {
+            0 => rng.pick(&[0u32, 1, 256 * 1024, 256 * 1024 + 1, 1 << 20, (1 << 20) + 1, 1 << 24, u32::MAX - 1, u32::MAX]),
+            1 => n as u32 + 1,
+            _ => n as u32,
+        };
+        let body = if ty == 0 { rand_bytes(rng, n as usize) } else { vec![] };
+        s.extend(yamux_frame(version, ty, flags, stream, len, &body));
+    }
+    if rng.chance(20) {
+        s = mutate_bytes(rng, s);
+    }
+    s
+}
+fn webrtc_wire(rng: &mut Rng) -> Vec<u8> {
+    let mut t = Vec::new();
+    if rng.chance(70) {
+        t.push(fv(1, if rng.chance(15) { rng.pick(&[4u64, 5, u64::MAX, 1 << 31]) } else { rng.below(4) }));
+    }
+    if rng.chance(70) {
+        t.push(fb(2, &small_bytes(rng, 60)));
+    }
+    let body = finish(rng, t);
+    let mut w = match rng.below(8) {
+        0 => wmsg_lie(&body, pick_extreme(rng), rng.pick(&[0usize, 10])),
+        1 => wmsg_lie(&body, rng.pick(&[16383u64, 16384, 16385, body.len() as u64 + 1]), 0),
+        _ => wmsg(&body),
+    };
+    if rng.chance(30) {
+        w.extend(small_bytes(rng, 8));
+    }
+    if rng.chance(10) {
+        let n = rng.below(w.len() as u64 + 1) as usize;
+        w.truncate(n);
+    }
+    w
+}
+/// DER-aware damage: a length octet replaced by short / long-form extremes, truncation, flips
+fn tls_mutant(rng: &mut Rng, der: &[u8]) -> Vec<u8> {
+    let mut b = der.to_vec();
+    match rng.below(6) {
+        0 => {
+            let n = rng.below(b.len() as u64 + 1) as usize;
+            b.truncate(n);
+        }
+        1 | 2 => {
+            // find a constructed / string tag and rewrite the length that follows it
+            let i = rng.below(b.len() as u64 - 2) as usize;
+            let j = (i..b.len() - 1).find(|k| matches!(b[*k], 0x30 | 0x31 | 0x04 | 0x03 | 0x06 | 0xa0 | 0xa3)).unwrap_or(i);
+            let lie: Vec<u8> = match rng.below(7) {
+                0 => vec![0],
+                1 => vec![0x7f],
+                2 => vec![0x80],
+                3 => vec![0x81, 0xff],
+                4 => vec![0x84, 0xff, 0xff, 0xff, 0xff],
+                5 => vec![0x88, 0xff, 0xff, 0xff, 0xff, 0xff, 0xff, 0xff, 0xff],
+                _ => vec![0xff],
+            };
+            b.splice(j + 1..j + 2, lie);
+        }
+        3 => return mutate_bytes(rng, b),
+        4 => {
+            let i = rng.below(b.len() as u64) as usize;
+            b[i] ^= 1 << rng.below(8);
+        }
+        _ => {}
+    }
+    b
+}
+pub fn feature_systematic(tls_seed: Option<&[u8]>) -> Vec<Vec<u64>> {
+    let mut out = Vec::new();
+    let mut rng = Rng::new(0x7151);
+    if let Some(der) = tls_seed {
+        out.push(c1(18, der));
+        for i in (0..=der.len()).step_by(3) {
+            out.push(c1(18, &der[..i]));
+        }
+        for _ in 0..400 {
+            out.push(c1(18, &tls_mutant(&mut rng, der)));
+        }
+    }
+    // WebRTC framing: every extreme length, every truncation of a full message
+    let body = ser(&[fv(1, 2), fb(2, b"hello")]);
+    for v in all_extremes().into_iter().chain([16383, 16384, 16385]) {
+        for w in [0usize, 10] {
+            out.push(c1(19, &wmsg_lie(&body, v, w)));
+        }
+    }
+    let full = wmsg(&body);
+    for i in 0..=full.len() {
+        out.push(c1(19, &full[..i]));
+    }
+    out
+}
+pub fn feature_random(rng: &mut Rng, tls_seed: Option<&[u8]>) -> Vec<u64> {
+    match tls_seed {
+        Some(der) if rng.chance(50) => c1(18, &tls_mutant(rng, der)),
+        _ => c1(19, &webrtc_wire(rng)),
     }
 }
 
@@ -1260,7 +1741,11 @@ pub fn random_case(rng: &mut Rng) -> Vec<u64> {
             let b = if rng.chance(40) { mutate_bytes(rng, b) } else { b };
             c1(2, &b)
         }
-        40..=49 => {
+        40..=41 => noise_random(rng),
+        42..=43 => codec_random(rng),
+        44 => select_random(rng),
+        45 => c1(21, &yamux_stream(rng)),
+        46..=49 => {
             let max = rng.pick(&[64u64, 1024, 70 * 1024]);
             let s = frame_stream(rng, max);
             // without a configured limit only short declared lengths are run for real
@@ -1289,7 +1774,7 @@ pub fn random_case(rng: &mut Rng) -> Vec<u64> {
         }
         63..=72 => {
             let peer = peer_id(rng);
-            let local = peer_id(rng);
+            let local = local_fixed();
             let t = identify_tree(rng, &peer, &local);
             c_ident(&peer, &local, &finish(rng, t))
         }
@@ -1297,7 +1782,12 @@ pub fn random_case(rng: &mut Rng) -> Vec<u64> {
             let t = bitswap_tree(rng);
             c1(8, &finish(rng, t))
         }
-        83..=85 => c1(9, &prefix_bytes(rng)),
+        83..=84 => c1(9, &prefix_bytes(rng)),
+        85 => {
+            let b = cid_bytes(rng);
+            let b = if rng.chance(40) { mutate_bytes(rng, b) } else { b };
+            c1(17, &b)
+        }
         86..=87 => {
             let b = if rng.chance(60) { peer_id(rng) } else { bad_peer_id(rng) };
             let b = if rng.chance(30) { mutate_bytes(rng, b) } else { b };
@@ -1305,8 +1795,8 @@ pub fn random_case(rng: &mut Rng) -> Vec<u64> {
         }
         88..=90 => {
             let id = peer_id(rng);
-            let b = addr_for(rng, &id);
-            let b = if rng.chance(40) { mutate_bytes(rng, b) } else { b };
+            let b = if rng.chance(60) { maddr_any(rng) } else { addr_for(rng, &id) };
+            let b = if rng.chance(30) { mutate_bytes(rng, b) } else { b };
             c1(11, &b)
         }
         _ => rt_case(rng),
@@ -1318,6 +1808,23 @@ pub fn random_case(rng: &mut Rng) -> Vec<u64> {
 pub fn systematic(thorough: bool) -> Vec<Vec<u64>> {
     let mut out = Vec::new();
     let mut rng = Rng::new(0xC19);
+    noise_systematic(&mut out, thorough);
+    codec_systematic(&mut out);
+    select_systematic(&mut out);
+    {
+        let mut rng = Rng::new(0x7a);
+        for len in [0u32, 1, 256 * 1024, 256 * 1024 + 1, 1 << 20, (1 << 20) + 1, u32::MAX] {
+            for ty in 0..4u8 {
+                for flags in [0u16, 1, 2] {
+                    out.push(c1(21, &yamux_frame(0, ty, flags, 1, len, &[1, 2, 3])));
+                }
+            }
+        }
+        let s = yamux_stream(&mut rng);
+        for i in 0..=s.len().min(120) {
+            out.push(c1(21, &s[..i]));
+        }
+    }
     let reps = if thorough { 4 } else { 1 };
     for _ in 0..reps {
         // Kademlia
@@ -1342,7 +1849,7 @@ pub fn systematic(thorough: bool) -> Vec<Vec<u64>> {
         }
         // identify, bitswap, noise, keys
         let peer = peer_id(&mut rng);
-        let local = peer_id(&mut rng);
+        let local = local_fixed();
         for _ in 0..2 {
             let t = identify_tree(&mut rng, &peer, &local);
             let b = ser(&t);
@@ -1436,6 +1943,12 @@ pub fn systematic(thorough: bool) -> Vec<Vec<u64>> {
         let a = maddr(&mut rng, Some(&id));
         for i in 0..=a.len() {
             out.push(c1(11, &a[..i]));
+        }
+        for _ in 0..3 {
+            let c = cid_bytes(&mut rng);
+            for i in 0..=c.len() {
+                out.push(c1(17, &c[..i]));
+            }
         }
     }
     out
